@@ -42,6 +42,8 @@ THEOREM_CLASSES = {
     "C17_tonumber_exact": "main", "C17_trunc_floor_ceil_exact": "main", "C17_bytes_exact": "main", "C17_todecsci_exact": "corollary",
     "C17_objects_unary": "main", "C17_objects_binary": "main", "C17_objects_shift_rotate": "main", "C17_objects_division": "main",
     "C17_objects_pow_scalar": "main",
+    "C17_frombase_domain": "main", "C17_frombase_space_uniform_refuted": "refutation",
+    "C17_literal_split_partition": "main", "C17_literal_text_exact": "main",
     "C17_rotate_reduction_needed": "refutation", "C17_upowmod_mulmod_needed": "refutation", "C17_literal_check_needed": "refutation",
 }
 ALLOWED_AXIOMS = []
@@ -323,6 +325,12 @@ def in64(z):
 def oracle4(op, args):
     a = args[0]
     b = args[1] if len(args) > 1 else None
+    if op in ("split_bin", "split_hex"):
+        sp = lit_split(a, BIN_RE if op == "split_bin" else HEX_RE)
+        if sp is None: return "nil"
+        hx = lambda t: t.hex() if t else "-"
+        return "%s %s %s %s" % (b2s(sp[0]), hx(sp[1]), "false" if sp[2] is False else hx(sp[2]), "nil" if sp[3] is None else hx(sp[3]))
+    if op == "from_text": return oracle_from_text(a)
     if op == "alias": return oracle_alias(*args)
     if op == "lua_tonumber":
         v = lua_tonumber_base(a, b); return "nil" if v is None else hexs(v)
@@ -431,7 +439,41 @@ def oracle_alias(fname, x, y, n, m):
     return "R=%s X=%s Y=%s A=%s X2=%s Y2=%s" % (r, limbs(x), limbs(y), flags, limbs(x2), limbs(y))
 
 
-OPS4 = {"alias": "KBBIB", "lua_tonumber": "SI", "lua_tostring": "I", "lua_format_x": "I", "tobint": "V", "new": "V", "madd": "VV", "msub": "VV", "mmul": "VV", "mlt": "VV", "mle": "VV", "meq": "VV",
+BIN_RE = re.compile(rb"(-|\+?)0[bB](?:([01]+)(?:(\.)([01]*))?|\.([01]+))(?:[pP]([+-]?[0-9]+))?")
+HEX_RE = re.compile(rb"(-|\+?)0[xX](?:([0-9a-fA-F]+)(?:(\.)([0-9a-fA-F]*))?|\.([0-9a-fA-F]+))(?:[pP]([+-]?[0-9]+))?")
+
+
+def lit_split(t, rx):
+    """captures of the lpegrex pattern: (neg, int, frac or False, exp or None), or None when it does not match"""
+    m = rx.fullmatch(t)
+    if not m: return None
+    sign, i1, dot, f1, f2, ex = m.groups()
+    if i1 is not None:
+        frac = False if dot is None else (f1 if f1 else b"0")
+        return (sign == b"-", i1, frac, ex)
+    return (sign == b"-", b"0", f2, ex)
+
+
+def oracle_from_text(t):
+    """integer literals are exact; the rest is float code (C14): None = no oracle"""
+    for rx, base, marks in ((BIN_RE, 2, b"bB"), (HEX_RE, 16, b"xX")):
+        if re.match(rb"[-+]?0[" + marks + rb"]", t):
+            sp = lit_split(t, rx)
+            if sp is None: return "!err malformed"
+            neg, i, frac, ex = sp
+            if frac is False and ex is None:
+                v = int(i.decode(), base); return limbs((-v if neg else v) % W)
+            return "float" if base == 16 else None
+    m = re.fullmatch(rb"([+-]?)([0-9]+)", t)
+    if m:
+        v = int(t.decode())
+        if not m.group(1) and v >= W // 2: return "float"
+        return limbs(v % W)
+    if re.match(rb"-?(inf|nan)", t.lower()): return "float"
+    return None
+
+
+OPS4 = {"split_bin": "S", "split_hex": "S", "from_text": "S", "alias": "KBBIB", "lua_tonumber": "SI", "lua_tostring": "I", "lua_format_x": "I", "tobint": "V", "new": "V", "madd": "VV", "msub": "VV", "mmul": "VV", "mlt": "VV", "mle": "VV", "meq": "VV",
         "tonumber": "B", "trunc": "V", "floor": "V", "ceil": "V", "fromle": "S", "frombe": "S", "tole": "BT", "tobe": "BT",
         "todecsci": "BT", "demotefloat": "V", "canbeintegral": "V"}
 
@@ -526,7 +568,7 @@ def oracle(op, args):
             t = a.decode("ascii")
         except UnicodeDecodeError:
             return None
-        if any(c.isspace() for c in t): return None   # outside the documented domain
+        if any(c.isspace() for c in t): return "nil"   # documented: only alphanumeric and '+-' characters, else nil
         v = parse_digits(t, base)
         return "nil" if v is None else limbs(v % W)
     if op in ("from_bin", "from_hex"):
@@ -568,9 +610,12 @@ SIG.update(OPS4)
 
 # inputs on which the unchanged code is known to deviate from the property (see known_findings/C17.json);
 # they are replayed on every run and reported under exactly these keys
+WS_WITNESSES = [(b" 12", 10), (b"12 ", 10), (b"\t-7\n", 10), (b" 12", 16), (b"12 ", 16), (b"\t-7\n", 16)]
+
+
 def known_replays():
-    """(op, args, width-independent key) of the inputs on which the unchanged code deviates from the property"""
-    return [
+    """(op, args, exact key) of the inputs on which the unchanged code deviates from the property"""
+    return [("frombase", (t, b), "bint:frombase %s %s" % (t.hex(), hexs(b))) for t, b in WS_WITNESSES] + [
     ]
 
 
@@ -705,9 +750,13 @@ def gen_cases(ctx):
         n = rng.choice([0, 1, 2, 5, 20, 70])
         s = "".join(rng.choice(DIGITS[:base] + rng.choice(["", DIGITS[base:base + 1], "-", "+", ".", "_"])) for _ in range(n))
         add("frombase-malformed", "frombase", (rng.choice(["", "-", "+", "--"]) + s).encode(), base)
-    for s in (b" 12", b"12 ", b"\t-7\n", b" ", b"1 2", b"+ 1"):   # whitespace: tonumber path only (not an oracle case)
+    # white space: documented result nil.  Short strings with SURROUNDING white space are accepted by the unchanged code
+    # (known finding, the six designated witnesses are replayed from KNOWN_REPLAYS); everything below is nil in the code too
+    for t in (b" ", b"1 2", b"+ 1", b"- 1", b" 12" + b"0" * 70, b"0" * 70 + b"12 ", b" " + b"1" * 64, b"\t" + b"f" * 40 + b"\n"):
         for base in (10, 16, 2):
-            add("frombase-space", "frombase", s, base)
+            add("frombase-space", "frombase", t, base)
+    for t in (b" 12", b"12 ", b"\t-7\n"):
+        add("frombase-space", "frombase", t, 2)
     for _ in range(ctx.scale(300, 5000)):
         v = rng.getrandbits(rng.randrange(1, BITS + 40))
         neg = rng.random() < .4
@@ -715,6 +764,30 @@ def gen_cases(ctx):
         if k == "from_bin": add("literal", k, neg, to_base(v, 2).encode())
         elif k == "from_hex": add("literal", k, neg, rng.choice([to_base(v, 16), to_base(v, 16).upper()]).encode())
         else: add("literal", k, ((rng.choice(["-", "+", ""])) + to_base(v, 10)).encode())
+    # ---- literal texts: the lpegrex split and bn.from from the text ----
+    def lit_text(kind):
+        digs = {"b": "01", "x": "0123456789abcdefABCDEF"}[kind]
+        sign = rng.choice(["", "", "-", "+"])
+        mark = rng.choice([kind, kind.upper()])
+        i = "".join(rng.choice(digs) for _ in range(rng.choice([0, 1, 1, 3, 8, 40, 70])))
+        form = rng.random()
+        body = i
+        if form < .25: body = i + "." + "".join(rng.choice(digs) for _ in range(rng.choice([0, 1, 4])))
+        if rng.random() < .25: body += rng.choice("pP") + rng.choice(["", "-", "+"]) + "".join(rng.choice("0123456789") for _ in range(rng.choice([0, 1, 2])))
+        if rng.random() < .12: body += rng.choice(["g", "2" if kind == "b" else "z", ".", " ", "p"])
+        return (sign + "0" + mark + body).encode()
+    for _ in range(ctx.scale(500, 10000)):
+        k = rng.choice("bx")
+        t = lit_text(k)
+        add("literal-text", "split_bin" if k == "b" else "split_hex", t)
+        add("literal-text", "from_text", t)
+    for t in (b"0b", b"0x", b"-0b", b"0b.", b"0b.1", b"0b1.", b"0x.8p1", b"0b1p", b"0b1p+", b"0B101", b"+0X1f", b"0b1p3", b"0b1.0", b"inf", b"-inf", b"NaN", b"-nan",
+              b"12", b"-12", b"+12", b"0012", b"1.5", b"1e3", b"abc", b"", b"-", str(W // 2).encode(), str(W // 2 - 1).encode(), str(W).encode()):
+        add("literal-text", "from_text", t)
+        add("literal-text", "split_bin", t); add("literal-text", "split_hex", t)
+    for _ in range(ctx.scale(200, 4000)):
+        v = rng.getrandbits(rng.randrange(1, BITS + 40))
+        add("literal-text", "from_text", (rng.choice(["", "", "-", "+"]) + ("0" * rng.choice([0, 0, 3])) + str(v)).encode())
     # ---- aliasing: operands re-read after the call, identity of the results, results mutated in place ----
     for fname in ALIAS_FNS:
         for _ in range(ctx.scale(6 if fname == "upowmod" else 25, 60 if fname == "upowmod" else 600)):
@@ -921,7 +994,7 @@ def correspond(ctx):
                               "bint %s: implementation returns %s, exact arithmetic mod 2^%d gives %s" % (fmt(c), i, BITS, exp),
                               detail={"case": fmt(c), "implementation": i, "model": m, "oracle": exp,
                                       "replay": "echo '%s' | LUA_PATH='<repo>/lualib/?.lua;;' <nelua-lua> /verif/harness/C17/ops.lua" % fmt(c)})
-        if m != i:
+        if m != i and not (op == "from_text" and m == "other"):
             n_model_mismatch += 1
             if exp is None or i == exp:
                 if shown_per_op.get("mm:" + op, 0) < 2:
@@ -952,7 +1025,6 @@ UNPROVED = [
     "mlt/mle/meq when an operand is not an integer: the model compares exactly by value (lvm.c), correspondence + oracle only, no theorem",
     "bn.demotefloat, bn.canbeintegral, bn.isnan/isinfinite, trunc/floor/ceil of strings: model + correspondence + oracle only",
     "bn.from fractional / exponent parts and hexadecimal floats: float paths, property C14",
-    "frombase on strings containing white space (the short-string path goes through the VM's tonumber, which skips it): model + correspondence only, no oracle; for all other strings acceptance is a theorem (C17_frombase_accepts)",
     "Lua VM library functions the conversions rely on (tostring(integer), string.format('%x'), tonumber(s, base), string.lower, %w, math.floor/ceil/modf, number comparison, strtod of a long decimal, string.pack/unpack) are modelled in Model3.v / Model4.v from the C sources, not verified; exercised by the correspondence run",
-    "the lpeg patterns of bn.from that split a literal into sign/prefix/digits are not modelled (the model starts from the captured parts)",
+    "bn.from on literal texts with a fraction or an exponent and on decimal texts that are not plain digit strings: float code (C14); the model returns TOther and only the split (captures) is corresponded",
 ]
